@@ -204,6 +204,12 @@ pub struct Scn {
     /// retry / reconnect back off for zero time
     #[serde(default)]
     pub zero_backoff: bool,
+    /// fresh clones of the innermost service need this long before they are ready
+    #[serde(default)]
+    pub clone_warmup_ms: u64,
+    /// the shared service is polled ready once (and not called) before the callers clone it
+    #[serde(default)]
+    pub primed_template: bool,
     /// per request: (start_ms, outcome script for the inner calls of that request)
     pub reqs: Vec<(u64, Vec<Behaviour>)>,
     pub knobs: SchedKnobs,
@@ -254,7 +260,9 @@ pub fn gen(rng: &mut Rng) -> Scn {
     knobs.jumps.clear();
     let pressure = rng.chance(1, 3) && stack.iter().any(|l| matches!(l, L::Bulkhead | L::RateLimiter));
     let zero_backoff = triggering && rng.chance(1, 3);
-    Scn { stack, mode, triggering, ready_script, pressure, zero_backoff, reqs, knobs }
+    let clone_warmup_ms = if mode == 0 && rng.chance(1, 5) { *rng.pick(&[1u64, 5, 20]) } else { 0 };
+    let primed_template = mode == 0 && rng.chance(1, 4);
+    Scn { stack, mode, triggering, ready_script, pressure, zero_backoff, clone_warmup_ms, primed_template, reqs, knobs }
 }
 
 pub fn valid(s: &Scn) -> bool {
@@ -268,6 +276,8 @@ pub fn valid(s: &Scn) -> bool {
         && s.reqs.iter().all(|(t, sc)| *t <= 1000 && !sc.is_empty() && sc.len() <= 4 && sc.iter().all(|b| b.lat_ms <= 20 && b.yields <= 3 && matches!(b.out, Outcome::Ok | Outcome::Err(0) | Outcome::Err(1))))
         && (s.triggering || s.reqs.iter().all(|(_, sc)| sc.len() == 1))
         && (!s.triggering || s.stack.iter().any(|l| matches!(l, L::Retry | L::Hedge | L::Reconnect)))
+        && s.clone_warmup_ms <= 50
+        && (s.mode == 0 || (s.clone_warmup_ms == 0 && !s.primed_template))
         && s.ready_script.len() <= 8
         && s.ready_script.iter().all(|x| *x <= 2)
         && (s.mode == 0 || s.ready_script.is_empty())
@@ -507,6 +517,9 @@ fn run_once(s: &Scn, chooser: &mut Chooser, rt_seed: u64, listeners: u8) -> SimO
             if !scn.ready_script.is_empty() {
                 w.script.ready_script.insert(0, scn.ready_script.clone());
             }
+            if scn.clone_warmup_ms > 0 {
+                w.script.clone_warmup_ms.insert(0, scn.clone_warmup_ms);
+            }
         });
         let base = SimInner::new(0).map_err(|e: SimErr| UErr { path: vec![], inner: Some(e) });
         let mut svc: Bx = match scn.mode {
@@ -530,9 +543,25 @@ fn run_once(s: &Scn, chooser: &mut Chooser, rt_seed: u64, listeners: u8) -> SimO
             svc = wrap(*kind, pos, scn.triggering, scn.pressure, scn.zero_backoff, listeners, svc);
         }
         let mut defs = vec![];
-        for (i, (start, _)) in scn.reqs.iter().enumerate() {
-            let svc = svc.clone();
+        // callers clone the shared service when they start; optionally a primer task has polled
+        // that shared instance ready (without calling it) before
+        let template = std::rc::Rc::new(std::cell::RefCell::new(svc));
+        if scn.primed_template {
+            let t = template.clone();
             let make: Box<dyn FnOnce() -> LocalFut> = Box::new(move || {
+                Box::pin(async move {
+                    let _ = std::future::poll_fn(|cx| t.borrow_mut().poll_ready(cx)).await;
+                    world::fault("template_polled_ready_then_cloned");
+                    Out::unit()
+                })
+            });
+            defs.push(TaskDef { start_ms: 0, make, cancel: Cancel::Never });
+        }
+        let shift = if scn.primed_template { 1 + scn.clone_warmup_ms } else { 0 };
+        for (i, (start, _)) in scn.reqs.iter().enumerate() {
+            let template = template.clone();
+            let make: Box<dyn FnOnce() -> LocalFut> = Box::new(move || {
+                let svc = template.borrow().clone();
                 Box::pin(async move {
                     let mut svc = svc;
                     match svc.ready().await {
@@ -550,7 +579,7 @@ fn run_once(s: &Scn, chooser: &mut Chooser, rt_seed: u64, listeners: u8) -> SimO
                     }
                 })
             });
-            defs.push(TaskDef { start_ms: *start, make, cancel: Cancel::Never });
+            defs.push(TaskDef { start_ms: *start + shift, make, cancel: Cancel::Never });
         }
         defs
     };
@@ -567,10 +596,10 @@ thread_local! {
     static ERRPATH: std::cell::RefCell<std::collections::HashMap<usize, Vec<&'static str>>> = Default::default();
 }
 
-fn outcome_key(o: &SimOut, n: usize) -> Vec<String> {
+fn outcome_key(o: &SimOut, n: usize, off: usize) -> Vec<String> {
     (0..n)
         .map(|i| {
-            let t = &o.rep.tasks[i];
+            let t = &o.rep.tasks[i + off];
             match (&t.status, &t.out) {
                 (Status::Resolved, Some(out)) => format!("{:?}/{:?}/{:?}", out.ok.as_ref().map(|r| (r.req, r.svc)), out.err, out.inner.as_ref().map(|e| (e.req, e.kind))),
                 (st, _) => format!("{:?}", st),
@@ -581,6 +610,7 @@ fn outcome_key(o: &SimOut, n: usize) -> Vec<String> {
 
 pub fn run(s: &Scn, ctx: &mut RunCtx) -> RunOutput {
     let n = s.reqs.len();
+    let off = if s.primed_template { 1 } else { 0 };
     let mut vio: Vec<Violation> = vec![];
     let mut push = |rule: &str, class: &str, msg: String| {
         if vio.len() < 12 {
@@ -618,7 +648,7 @@ pub fn run(s: &Scn, ctx: &mut RunCtx) -> RunOutput {
         }
     }
     // tower's own services panic when the contract is broken
-    for (i, t) in main.rep.tasks.iter().enumerate() {
+    for (i, t) in main.rep.tasks.iter().enumerate().skip(off).map(|(k, t)| (k - off, t)) {
         if t.status == Status::Panicked {
             push(
                 "C20.ready_before_call",
@@ -636,7 +666,7 @@ pub fn run(s: &Scn, ctx: &mut RunCtx) -> RunOutput {
     // ---- transparency (only meaningful when nothing was scripted to trigger)
     let cb_fb = s.stack.contains(&L::CircuitBreakerFallback);
     let _ = cb_fb;
-    for (i, t) in main.rep.tasks.iter().enumerate() {
+    for (i, t) in main.rep.tasks.iter().enumerate().skip(off).map(|(k, t)| (k - off, t)) {
         let mine: Vec<_> = calls.iter().filter(|c| c.req == i as u32).collect();
         match (&t.status, &t.out) {
             (Status::Resolved, Some(o)) => {
@@ -719,8 +749,8 @@ pub fn run(s: &Scn, ctx: &mut RunCtx) -> RunOutput {
         let other = run_once(s, &mut c2, ctx.rt_seed, 2);
         steps += other.rep.steps as u64;
         digest = crate::rng::mix(&[digest, world::digest(&other.log)]);
-        let a = outcome_key(&main, n);
-        let b = outcome_key(&other, n);
+        let a = outcome_key(&main, n, off);
+        let b = outcome_key(&other, n, off);
         if a != b {
             push("C20.outcomes_unchanged", "", format!("with panicking listeners the outcomes changed from {:?} to {:?}; stack {}", a, b, stack_desc));
         }
@@ -775,7 +805,7 @@ pub fn run(s: &Scn, ctx: &mut RunCtx) -> RunOutput {
         digest,
         trace: ctx.chooser.trace.clone(),
         diverged: ctx.chooser.diverged,
-        summary: json!({"stack": stack_desc, "mode": s.mode, "outcomes": outcome_key(&main, n)}),
+        summary: json!({"stack": stack_desc, "mode": s.mode, "outcomes": outcome_key(&main, n, off)}),
     }
 }
 
